@@ -377,14 +377,54 @@ def run_config(code, n, variant, mask, evaluated, ctx):
             # in the name variant the named input is changed THROUGH its name
             # (when the extracted model knows the name at all: a focus that
             # reaches the cell only by its address does not carry the name)
+            # - at every other step; otherwise by its address
             target = NAME if (variant == 'name' and i == NAME_IDX and
-                              NAME in ext.defined_names) \
+                              NAME in ext.defined_names and s % 2) \
                 else addr(i, variant)
             lib.observe(ev.set_cell_value, target, v)
             lib.observe(eve.set_cell_value, target, v)
             ctx.count('transitions')
             compare('%d:set(%d,%d)' % (s, i, v))
+        if label in ('path', 'single0'):
+            second_generation(ext, eve, history, items)
+            if len(items) > 1:
+                # a narrower focus reaches the other cells through formulas
+                # (and names) instead of by their addresses
+                second_generation(ext, eve, history, items[:1])
         lib.clear_caches()
+
+    def second_generation(ext, eve, history, items):
+        """"For any model": the extracted model, after its history, is the
+        original of a further extraction with the same focus."""
+        try:
+            with lib.time_limit():
+                sub = lib.ModelCompiler.extract(ext, focus=list(items))
+            got = 'extracted'
+        except lib.CaseTimeout:
+            got = 'timeout'
+        except Exception as exc:  # noqa: BLE001
+            got = lib.exc_obs(exc)
+        ctx.count('transitions')
+        k2 = '%s/second-generation/%d/%d' % (key0, len(history), len(items))
+        t2 = tags + ['history:extract-of-extract']
+        if got != 'extracted':
+            ctx.fail(k2 + '/extract', t2 + ['oracle:extract'], inputs,
+                     'extracted', got, nontriv)
+            return
+        evs = lib.Evaluator(sub)
+
+        def compare2(step):
+            for f in items:
+                a = lib.observe(eve.evaluate, f)
+                b = lib.observe(evs.evaluate, f)
+                ctx.check('%s/%s/%s' % (k2, step, f), b, a,
+                          t2 + ['oracle:same-value'], inputs, nontriv)
+        compare2('0')
+        for i, v in ops[:2]:
+            lib.observe(eve.set_cell_value, addr(i, variant), v)
+            lib.observe(evs.set_cell_value, addr(i, variant), v)
+            ctx.count('transitions')
+            compare2('set(%d,%d)' % (i, v))
 
     session([], 'init')
     for oi in range(len(ops)):
